@@ -85,7 +85,7 @@ def run_shard(spec, rng, ctx):
     probes = standard_probes().start()
     end = C.budget(spec)
     try:
-        while time.time() < end:
+        while C.now() < end:
             judge(draw(rng, spec["nmax"]), ctx)
     finally:
         probes.stop()
